@@ -295,6 +295,7 @@ fn c10_clear_is_zero() {
     assert!(fresh.tallies == info.tallies);
     assert!(fresh.current_count == 0 && fresh.max_count == 0 && fresh.current_size == 0 && fresh.max_size == 0);
     assert!(invariant(&fresh));
+    kani::cover!(true);
 }
 
 /// k symbolic operations after clear(): compare with a direct model (per-op counts/bytes, running
